@@ -18,7 +18,10 @@ CONFIGS = {
                                               "KSet": "{2}", "NBufs": "{1}"}, 2),
               # a wide buffer followed by a narrow one: a cut inside a row of the first must not spill into the second
               ("TdmsDaqmx", "TdmsDaqmx.cfg", {"Kinds": '{"fc"}', "WidthSet": "{2, 7}", "OffSet": "{0}", "SizeSet": "{2}",
-                                              "RowSet": "{2, 3}", "KSet": "{2}", "NBufs": "{2}", "MaxChans": "2"}, 1)],
+                                              "RowSet": "{2, 3}", "KSet": "{2}", "NBufs": "{2}", "MaxChans": "2"}, 1),
+              # packed rows: multi-byte scalers at offsets that are not multiples of their size, in rows whose width is
+              ("TdmsDaqmx", "TdmsDaqmx.cfg", {"Kinds": '{"fc"}', "WidthSet": "{8}", "OffSet": "{1, 3}", "SizeSet": "{2, 4}",
+                                              "RowSet": "{2}", "KSet": "{2}", "NBufs": "{1}", "MaxChans": "2"}, 2)],
     "thorough": [("TdmsDaqmx", "TdmsDaqmx.cfg", {}, 1),
                  ("TdmsDaqmx", "TdmsDaqmx.cfg", {"WidthSet": "{9}", "OffSet": "{1, 5}", "SizeSet": "{4}", "RowSet": "{2}",
                                                  "KSet": "{3}", "Kinds": '{"fc"}'}, 1),
